@@ -402,6 +402,19 @@ def shard_main(shard, nshards, tier, scale):
             avp = R.enc_avp(d.avp_code, d.vendor_id, 0x40, bad_payloads(tname, n, v))
             flags = 0x80 if k.__name__.endswith("Request") else 0
             check_bytes(R.enc_message(1, flags, k.code, 0, 1, 2, avp), rec, f"typed-payload-typed-cmd:{tname}", True)
+    # grouped AVPs nested 1..16 deep (the quantifier's bound): well-formed chains, and chains whose innermost member is
+    # malformed, under typed, untyped and unknown commands, request and answer
+    chains = [(279, 0), (456, 0), (260, 0), (873, 10415)]
+    inner_variants = [R.enc_avp(1, 0, 0x40, b"user"), R.enc_avp(268, 0, 0x40, b"\x00\x00\x07"), b"", R.enc_avp(1, 0, 0x40, b"\xff\xfe")]
+    deep_jobs = [(depth, g, v, c, fl) for depth in range(1, 17) for g in range(len(chains)) for v in range(len(inner_variants))
+                 for c in (257, 272, untyped[0], 999, 283) for fl in (0x80, 0x00)]
+    for (depth, g, v, c, fl) in deep_jobs[shard::nshards]:
+        body = inner_variants[v]
+        for lvl in range(depth):
+            code_, vend_ = chains[(g + lvl) % len(chains)] if lvl % 3 == 2 else chains[g]
+            body = R.enc_avp(code_, vend_, 0x40, body)
+        check_bytes(R.enc_message(1, fl, c, 0, 1, 2, body), rec, f"deep-nesting:{min(depth, 16)}", True)
+
     # concurrent decoding (last: the preemption points slow the codec down)
     from dv import sched as _sched
     _sched.clear()
@@ -440,7 +453,7 @@ def run(tier, scale=1.0):
     fuzz_info = {}
     if tier == "thorough":
         fuzz_info = run_atheris(rec)
-    required = {"gen:concurrent": 1, "concurrent:inputs:3": 1, "concurrent:switches:6": 1, "concurrent:with-decode-error": 1,
+    required = {"gen:deep-nesting:16": 1, "gen:deep-nesting:11": 1, "gen:concurrent": 1, "concurrent:inputs:3": 1, "concurrent:switches:6": 1, "concurrent:with-decode-error": 1,
                 "gen:random": 1, "gen:prefix": 1, "gen:bitflip": 1, "gen:length-message": 1,
                 "gen:length-avp": 1, "gen:length-nested-avp": 1, "gen:typed-payload-bare:Address": 1,
                 "gen:typed-payload-typed-cmd:Grouped": 1, "gen:typed-payload-untyped-cmd:Time": 1,
